@@ -57,6 +57,14 @@ def fresh_value(I, st, t, name):
             for st1, v in fresh_value(I, st, t.t, '%s.%d' % (name, i)):
                 yield from go(i + 1, acc + [v], st1)
         yield from go(0, [], st)
+    elif isinstance(t, ListLit):
+        def go(i, acc, st):
+            if i == len(t.ts):
+                yield st, I.alloc(st, HList(acc))
+                return
+            for st1, v in fresh_value(I, st, t.ts[i], '%s.%d' % (name, i)):
+                yield from go(i + 1, acc + [v], st1)
+        yield from go(0, [], st)
     elif isinstance(t, Obj):
         names = list(t.fields)
 
@@ -323,6 +331,9 @@ def call_opaque(I, node, f, args, kwargs, st):
     outs = []
     if isinstance(rt, Opt):
         isn = opaque_fn(tname, meth, argtypes, rt.t, 'isnone')(selfe, *zargs)
+        if not ms.get('ensures'):
+            yield st, SIte(isn, NONE, mk(rt.t))
+            return
         for st1, b in I.split(st, isn):
             outs.append((st1, NONE if b else mk(rt.t)))
     elif rt is NoneT:
